@@ -3,6 +3,7 @@ import LyModel.Conc.DictLemmas
 import LyModel.Conc.ErrLemmas
 import LyModel.Conc.ErrView
 import LyModel.Conc.Lazy
+import LyModel.Conc.LybCache
 import LyModel.Generated.LockPaths
 import LyModel.Generated.Consts
 /-!
@@ -271,5 +272,22 @@ theorem lazy_canon_race_fails :
 
 example : (lrun "x y" (lazyInit none 0) raceSchedule).refs = 2 ∧ (lrun "x y" (lazyInit none 0) raceSchedule).canon = some "x y" := by
   decide
+
+/-! ## the LYB schema-hash cache: written once under the lock, read without it -/
+
+/-- In every schedule of any number of threads in which each thread's `lyb_get_hash` reads come after a
+    `lyb_cache_module_hash` call of that same thread (what printer_lyb.c / parser_lyb.c do), the cache is written at
+    most once and every unlocked read returns the cached hash — the reads `lock_discipline` leaves unconstrained. -/
+theorem lyb_cache_published (v : Nat) (sched : List (Nat × CStep))
+    (h : readsAfterOwnCache (fun _ => false) sched = true) :
+    (crun v cacheInit sched).writes ≤ 1 ∧ ∀ r ∈ (crun v cacheInit sched).reads, r.2 = some v := by
+  have inv := crun_inv v sched cacheInit
+    ⟨Or.inl ⟨rfl, rfl⟩, fun _ hc => (by cases hc), fun _ hr => (by cases hr)⟩ h
+  refine ⟨?_, inv.reads⟩
+  rcases inv.once with ⟨_, hw⟩ | ⟨_, hw⟩ <;> omega
+
+example : readsAfterOwnCache (fun _ => false) [(0, .cache), (1, .cache), (1, .read), (0, .read), (2, .cache), (2, .read)] = true ∧
+    (crun 7 cacheInit [(0, .cache), (1, .cache), (1, .read), (0, .read), (2, .cache), (2, .read)]).reads =
+      [(1, some 7), (0, some 7), (2, some 7)] := by decide
 
 end LyModel.Props.C16
